@@ -10,18 +10,21 @@ let mk_asdu size id =
   List.map zi ([30; 1; 3; 0; 1; 0] @ pl)
 let pid (a : z list) = (try iz (List.nth a 6) with _ -> 0) lor ((try iz (List.nth a 7) with _ -> 0) lsl 8)
 let b2i b = if b then 1 else 0
-let mq_dump () =
+let mq_dump_of (mq : mqs ref) =
   Printf.printf "mq n=%d first=%d last=%d lib=%d :" (iz !mq.cnt) (iz !mq.first) (iz !mq.last) (iz !mq.lib);
   (match mq_entries !mq with
    | Ok l -> List.iter (fun (o, e) -> Printf.printf " %d:%d:%d:%d@%d" (iz e.e_id) (iz e.e_st) (iz e.e_sz) (pid e.e_asdu) (iz o)) l
    | Fault w -> Printf.printf " FAULT@%d" (iz w));
   print_newline ()
+let mq_dump () = mq_dump_of mq
 let hq_dump () = Printf.printf "hp n=%d first=%d last=%d lib=%d\n" (iz !hq.hcnt) (iz !hq.hfirst) (iz !hq.hlast) (iz !hq.hlib)
 let faulted = ref false
 let sg = ref { c_k = zi 12; c_w = zi 8; c_t1 = zi 15; c_t2 = zi 10; c_t3 = zi 20; c_interrog = false; c_hret = false; c_burst = zi 0;
                c_bsize = zi 0; c_term = false; c_reqret = true }
 let sc = ref (new_conn !sg (zi 0) (zi 0))
 let sq = ref (hp_new (zi 2))
+let smq = ref (mq_new (zi 2))
+let stab : (z * z) list ref = ref []
 let () =
   iter_lines (fun line ->
     match words line with
@@ -74,25 +77,34 @@ let () =
         (* the scheduler with the literal ring (Cs104/SchedRing.v): sendASDUInternal / sendWaitingASDUs on one connection *)
         let x = (match rest with a :: _ -> int_of_string a | [] -> 0) in
         let y = (match rest with _ :: b :: _ -> int_of_string b | _ -> 0) in
+        let zq = (match rest with _ :: _ :: c :: _ -> int_of_string c | _ -> 2) in
         let o = ref [] in
         (match sub with
          | "new" ->
              sg := { c_k = zi x; c_w = zi 8; c_t1 = zi 15; c_t2 = zi 10; c_t3 = zi 20; c_interrog = false; c_hret = false; c_burst = zi 0;
                      c_bsize = zi 0; c_term = false; c_reqret = true };
              sc := { (new_conn !sg (zi 0) (zi 0)) with st = zi 1; running = true };
-             sq := hp_new (zi y); aid := 0
+             sq := hp_new (zi y); smq := mq_new (zi zq); stab := []; aid := 0
+         | "ev" ->
+             (match mq_enqueue !smq (mk_asdu x !aid) with Ok q -> smq := q | Fault w -> Printf.printf "FAULT schev %d\n" (iz w)); incr aid
+         | "rearm" ->
+             (match mq_reset_waiting !smq with Ok q -> smq := q | Fault w -> Printf.printf "FAULT schrearm %d\n" (iz w));
+             sc := { !sc with kbuf = [] }
          | "resp" ->
              (match send_asdu_internal_r !sg (zi 0) !sc !sq (mk_asdu x !aid) with
               | Ok (((c', q'), r), o') -> sc := c'; sq := q'; o := o'; Printf.printf "schresp %d\n" (b2i r)
               | Fault w -> Printf.printf "FAULT schresp %d\n" (iz w));
              incr aid
          | "drain" ->
-             (match send_waiting_r !sg (zi 0) server_init !sc !sq with
-              | Ok (((_, c'), q'), o') -> sc := c'; sq := q'; o := o'; print_endline "schdrain"
+             (match send_waiting_rr !sg (zi 0) !sc !sq !smq !stab with
+              | Ok ((((c', hq'), q'), t'), o') -> sc := c'; sq := hq'; smq := q'; stab := t'; o := o'; print_endline "schdrain"
               | Fault w -> Printf.printf "FAULT schdrain %d\n" (iz w))
          | "ack" ->
-             let rec drop n l = if n <= 0 then l else (match l with [] -> [] | _ :: r -> drop (n - 1) r) in
-             sc := { !sc with kbuf = drop x !sc.kbuf }
+             (* the release loop of checkSequenceNumber for the x oldest entries of the k-buffer (confirms their event entries in the ring) *)
+             let x = min x (List.length !sc.kbuf) in
+             (match release_r (nat_of_int x) !sc.kbuf !stab !smq with
+              | Ok (kb, q') -> sc := { !sc with kbuf = kb }; smq := q'
+              | Fault w -> Printf.printf "FAULT schack %d\n" (iz w))
          | "wmode" -> sc := { !sc with wmode = zi x }
          | "stop" -> sc := { !sc with st = zi 0 }
          | _ -> ());
@@ -100,6 +112,7 @@ let () =
         List.iter (fun ob -> match ob with
                              | OTx (_, b) -> if List.length b >= 14 then Printf.printf "%d," ((iz (List.nth b 12)) lor ((iz (List.nth b 13)) lsl 8)) else print_string "u,"
                              | _ -> ()) !o;
-        Printf.printf " k=%d run=%d hp n=%d first=%d last=%d lib=%d\n" (List.length !sc.kbuf) (b2i !sc.running) (iz !sq.hcnt) (iz !sq.hfirst) (iz !sq.hlast) (iz !sq.hlib)
+        Printf.printf " k=%d run=%d hp n=%d first=%d last=%d lib=%d\n" (List.length !sc.kbuf) (b2i !sc.running) (iz !sq.hcnt) (iz !sq.hfirst) (iz !sq.hlast) (iz !sq.hlib);
+        mq_dump_of smq
     | [] -> ()
     | _ -> ())
